@@ -27,7 +27,18 @@ def main():
     if a.replay:
         sys.exit(mod.replay(a.replay))
     chk = common.Check(a.pid, a.tier)
-    sys.exit(mod.run(chk))
+    try:
+        rc = mod.run(chk)
+    except Exception:  # noqa
+        # The harness could not complete: the implementation did something no part of the check anticipates (or the
+        # harness itself is broken).  Either way the property is not shown to hold: report it, never die silently.
+        import traceback
+        tb = traceback.format_exc()
+        chk.broken.append(common.BuildBroken("correspondence", "the check could not complete: unexpected exception while "
+                                             "driving the implementation", tb[-3000:]))
+        chk.oblige("check-completed", False, tb[-300:])
+        rc = chk.finish()
+    sys.exit(rc)
 
 
 if __name__ == "__main__":
